@@ -160,7 +160,7 @@ def run_case(case, ctx):
         op = rng.choice(
             ["construct_kw", "construct_map", "construct_pairs", "construct_other", "construct_other", "setitem", "setdefault", "update_map", "update_pairs",
              "update_kw", "update_mixed", "ior_map", "ior_pairs", "copy", "pickle", "deepcopy", "del", "pop", "clear",
-             "copy_copy"]
+             "copy_copy", "or_map", "ror_map"]
         )
         want_u = rng.random() < 0.4
         pairs, has_u = _operand(rng, declared, want_u)
@@ -232,6 +232,37 @@ def run_case(case, ctx):
             elif op == "ior_pairs":
                 new_model.update(list(pairs))
                 d |= list(pairs)
+            elif op in ("or_map", "ror_map"):
+                # union operators build a NEW object and leave d alone; whatever comes back, an object of the
+                # fixed-entry type must not hold an undeclared key (a plain dict may)
+                before = dict(d)
+                try:
+                    c = (d | dict(pairs)) if op == "or_map" else (dict(pairs) | d)
+                except FixedDictKeyError:
+                    c = None
+                    if not has_u:
+                        ctx.violation("fixeddict:declared-rejected:" + op, "%s with declared keys only raised FixedDictKeyError" % op,
+                                      detail={"history": kinds, "pairs": repr(pairs)})
+                ctx.count("union_results:" + ("rejected" if c is None else type(c).__name__ if not isinstance(c, T) else "fixeddict"))
+                if has_u:
+                    nontrivial = True
+                    ctx.count("undeclared_operand_ops")
+                if c is not None and isinstance(c, T):
+                    bad = [k for k in dict.keys(c) if k not in dset]
+                    if bad:
+                        ctx.violation("fixeddict:undeclared-accepted:" + op, "%s returned a %s holding undeclared key %r" % (op, case["type"], bad[0]),
+                                      detail={"history": kinds, "pairs": repr(pairs)})
+                if c is not None and not has_u:
+                    want = dict(before)
+                    want.update(dict(pairs)) if op == "or_map" else None
+                    if op == "ror_map":
+                        want = dict(pairs)
+                        want.update(before)
+                    if dict(c) != want:
+                        ctx.violation("fixeddict:%s-content" % op, "%s gave %r, expected %r" % (op, dict(c), want))
+                if dict(d) != before:
+                    ctx.violation("fixeddict:%s-mutated-operand" % op, "%s changed its fixeddict operand" % op)
+                continue
             elif op in ("copy", "copy_copy", "deepcopy", "pickle"):
                 has_u = False
                 if op == "copy":
